@@ -329,6 +329,18 @@ theorem C16_group_shutdown_wait (ops : List SOp) :
   intro g q fuel hw hb
   exact below_zero fuel s.tree h g q hb (by simpa [waitChildrenReturns] using hw)
 
+/-- `Group.WaitParents()` (= `Root().WaitChildren()`) returns only when nothing below the root — the whole tree the
+group belongs to — has pending work. -/
+theorem C16_group_wait_parents (ops : List SOp) (g q fuel : Nat) :
+    let s := runS {} ops
+    waitParentsReturns s.tree g = true → below fuel s.tree (rootOf s.tree.length s.tree g) q = true → val s.tree q = 0 := by
+  intro s hw hb
+  exact (C16_group_shutdown_wait ops).2 _ q fuel hw hb
+
+example : let t := (runS {} [.base (.newGroup none), .base (.newGroup (some 0)), .base (.newPool 1), .base (.newGroup none)]).tree
+    rootOf t.length t 1 = 0 ∧ rootOf t.length t 3 = 3 ∧ waitParentsReturns t 1 = true ∧ poolsBelow t 0 = 1 ∧
+      below 4 t 0 2 = true := by decide
+
 /-- `Group.isShutdown` and "stopped" are never reset, whatever happens afterwards; a stopped pool rejects every
 `Submit` (its counter is not moved by `inc`), so from then on it only drains. -/
 theorem C16_group_flags_monotone (s : GS) (ops : List SOp) (j : Nat) (h : isShut s j = true) :
